@@ -9,6 +9,7 @@
 (* multiset of warnings (hash of the sorted list).                            *)
 EXTENDS TraceLib, FiniteSets
 
+CONSTANT KnownDevs
 VARIABLES l,
           result     \* defset -> [status, hash, whash] of its first compilation
 
@@ -22,6 +23,11 @@ Step == /\ l <= Len(Rec)
            THEN result' = [d \in DOMAIN result \cup {e.defset} |-> IF d = e.defset THEN Obs(e) ELSE result[d]]
            ELSE /\ result' = result
                 /\ IF Obs(e) = result[e.defset] THEN TRUE
+                   \* D_C11_bare_name_map: two source files that define a name in common -- the compiler keeps one definition per
+                   \* bare name (D_C10_bare_name_map), and which one survives depends on the order of the sources
+                   ELSE IF e.shared_names > 0 THEN
+                        (IF "D_C11_bare_name_map" \in KnownDevs THEN Report(l, "DEVIATION", "D_C11_bare_name_map")
+                         ELSE Report(l, "MISMATCH", "result depends on the order of sources that define a common name (deviation D_C11_bare_name_map, not a listed known finding)"))
                    ELSE IF e.status # result[e.defset].status
                         THEN Report(l, "MISMATCH", "Ok/Err outcome depends on how the same definitions are presented: " \o e.variant)
                    ELSE IF e.hash # result[e.defset].hash
